@@ -225,6 +225,15 @@ func c20Prepare(r *fw.Rand, p *ref.Packet) (*rtp.Packet, error) {
 	if err != nil {
 		return nil, err
 	}
+	if r.Chance(1, 3) {
+		// extension values whose backing arrays have spare capacity
+		for _, id := range pk.GetExtensionIDs() {
+			v := pk.GetExtension(id)
+			nv := make([]byte, len(v), len(v)+8)
+			copy(nv, v)
+			_ = pk.SetExtension(id, nv)
+		}
+	}
 	switch r.Intn(3) {
 	case 0: // spare capacity
 		if pk.Payload != nil {
